@@ -69,12 +69,15 @@ type Ev struct {
 	NewGNB  int       `json:"new_gnb,omitempty"` // 0: unchanged, else gnb index+1
 	NewTEID uint32    `json:"new_teid,omitempty"`
 	IDLast  bool      `json:"id_last,omitempty"` // updfar: FAR ID IE after the Apply Action IE
+	QERs    []uint32  `json:"qers,omitempty"`    // mkpdr
 	Whole   bool      `json:"whole,omitempty"`   // burst: written in one go (the listener runs ahead of the idle loop and the report queue fills) instead of chunks of 100
 	Spec    *SessSpec `json:"spec,omitempty"`
 }
 type Case struct {
 	Sess []SessSpec `json:"sess"`
 	Evs  []Ev       `json:"evs"`
+	// Perm != 0: the child IEs of every Create / Update IE are sent in another order derived from it
+	Perm uint32 `json:"perm,omitempty"`
 }
 
 const (
@@ -108,6 +111,7 @@ type msess struct {
 
 type stats struct {
 	overflowThenRelease, releaseAfterReuse, twoForw bool
+	recreated                                       bool
 	released, notified                              int
 }
 
@@ -174,6 +178,8 @@ func run(c Case) (v *vcore.Violation, stt stats) {
 				OHC: &stack.OHC{TEID: fa.TEID, Peer: f.S.Net.IP(10 + fa.GNB)}})
 			m.fars[fa.ID] = &mfar{fa.Action, fa.GNB, fa.TEID}
 		}
+		// QER and FAR children in another order; the Create PDRs keep theirs (the order of their QER IDs carries meaning)
+		rules = stack.Permute(rules, c.Perm)
 		for _, p := range sp.PDRs {
 			rules = append(rules, stack.RuleOp{Verb: "create", Kind: "PDR", ID: uint32(p.ID), Prec: 1, SrcIf: 1, UEIP: "10.60.0.1", FAR: p.FAR, QERs: p.QERs})
 			m.pdrs[p.ID] = &mpdr{far: p.FAR, qers: p.QERs}
@@ -216,7 +222,51 @@ func run(c Case) (v *vcore.Violation, stt stats) {
 		return o, dead(o, what)
 	}
 
+	// queuesMatch compares every packet queue of every live session with the model (the state the previous event left):
+	// nothing may linger that should have been released or discarded, whichever PDR of a shared FAR it was queued for
+	queuesMatch := func(when string) *vcore.Violation {
+		snap := f.S.Srv.VerifSnapshot()
+		for si, m := range ms {
+			if !m.alive {
+				continue
+			}
+			vs, ok := snap.Sess[m.up]
+			if !ok {
+				continue
+			}
+			ids := map[uint16]bool{}
+			for id := range vs.Queues {
+				ids[id] = true
+			}
+			for id := range m.q {
+				ids[id] = true
+			}
+			for id := range ids {
+				if p := m.pdrs[id]; p == nil || p.removed {
+					// what becomes of a removed PDR's packets is not stated (only that they are never emitted
+					// under another PDR or session); its queue is not compared
+					continue
+				}
+				held, model := vs.Queues[id], m.q[id]
+				if K >= 0 && len(model) > K {
+					model = model[:K]
+				}
+				if len(held) != len(model) {
+					return vcore.Violatef("queue-stale", "%s: session #%d PDR %d holds %d buffered packets, %d should be there", when, si, id, len(held), len(model))
+				}
+				for j := range held {
+					if held[j] != hash(model[j]) {
+						return vcore.Violatef("queue-stale", "%s: session #%d PDR %d position %d holds a packet that should not be there", when, si, id, j)
+					}
+				}
+			}
+		}
+		return nil
+	}
 	for i, ev := range c.Evs {
+		if x := queuesMatch(fmt.Sprintf("before event %d (%s)", i, ev.Kind)); x != nil {
+			return x, stt
+		}
 		what := fmt.Sprintf("event %d (%s)", i, ev.Kind)
 		switch ev.Kind {
 		case "burst":
@@ -522,6 +572,29 @@ func run(c Case) (v *vcore.Violation, stt stats) {
 			if g := drainGNBs(); len(g) > 0 {
 				return vcore.Violatef("unexpected-emission", "%s: packets emitted on PDR removal", what), stt
 			}
+		case "mkpdr":
+			// a PDR id that was removed is created again: a new PDR, which has nothing buffered yet
+			if ev.Sess >= len(ms) || !ms[ev.Sess].alive {
+				continue
+			}
+			m := ms[ev.Sess]
+			if p := m.pdrs[ev.PDR]; p == nil || !p.removed || m.fars[ev.FAR] == nil {
+				continue
+			}
+			o := r.Step(stack.Op{Kind: "mod", Peer: m.spec.Node, Sess: m.ref, Rules: []stack.RuleOp{
+				{Verb: "create", Kind: "PDR", ID: uint32(ev.PDR), Prec: 1, SrcIf: 1, UEIP: "10.60.0.1", FAR: ev.FAR, QERs: ev.QERs}}})
+			if x := dead(o, what); x != nil {
+				return x, stt
+			}
+			m.pdrs[ev.PDR] = &mpdr{far: ev.FAR, qers: ev.QERs}
+			delete(m.q, ev.PDR)
+			stt.recreated = true
+			if vs, ok := f.S.Srv.VerifSnapshot().Sess[m.up]; ok && len(vs.Queues[ev.PDR]) > 0 {
+				return vcore.Violatef("recreated-pdr-inherits-packets", "%s: PDR %d of session #%d was removed with packets buffered and created again: the new PDR starts with %d packets of the removed one queued, which the next release emits under it", what, ev.PDR, ev.Sess, len(vs.Queues[ev.PDR])), stt
+			}
+			if g := drainGNBs(); len(g) > 0 {
+				return vcore.Violatef("unexpected-emission", "%s: packets emitted on PDR creation", what), stt
+			}
 		case "del":
 			if ev.Sess >= len(ms) || !ms[ev.Sess].alive {
 				continue
@@ -544,6 +617,9 @@ func run(c Case) (v *vcore.Violation, stt stats) {
 				return x, stt
 			}
 		}
+	}
+	if x := queuesMatch("after the last event"); x != nil {
+		return x, stt
 	}
 	return nil, stt
 }
@@ -580,7 +656,7 @@ func gen(t *rapid.T) Case {
 		c.Sess = append(c.Sess, genSess(t, uint64(0x60+i)))
 	}
 	// scripted cores make the interesting shapes frequent; free-form events follow
-	scen := rapid.SampledFrom([]string{"free", "free", "overflow", "twoforw", "reuse"}).Draw(t, "scenario")
+	scen := rapid.SampledFrom([]string{"free", "free", "overflow", "twoforw", "reuse", "recreate", "dropshared"}).Draw(t, "scenario")
 	if scen != "free" {
 		c.Sess[0].FARs[0].Action = rapid.SampledFrom([]uint16{BUFF, BUFF | NOCP}).Draw(t, "a0")
 		c.Sess[0].PDRs[0].FAR = 1
@@ -592,6 +668,23 @@ func gen(t *rapid.T) Case {
 	switch scen {
 	case "overflow":
 		c.Evs = append(c.Evs, Ev{Kind: "burst", Sess: 0, Target: "live", PDR: 1, N: rapid.SampledFrom([]int{511, 512, 513, 520, 700}).Draw(t, "big")}, small(), forw)
+	case "dropshared":
+		// one buffering FAR serves two PDRs, packets wait for both (or only the second), the FAR goes to DROP and later back
+		// to buffering and forwarding: nothing buffered before the DROP may come out
+		for len(c.Sess[0].PDRs) < 2 {
+			c.Sess[0].PDRs = append(c.Sess[0].PDRs, PDRSpec{ID: uint16(len(c.Sess[0].PDRs) + 1), FAR: 1})
+		}
+		c.Sess[0].PDRs[1].FAR = 1
+		b2 := func() Ev {
+			return Ev{Kind: "burst", Sess: 0, Target: "live", PDR: 2, N: rapid.IntRange(1, 9).Draw(t, "sn2"), NOCP: rapid.Bool().Draw(t, "snocp2")}
+		}
+		if rapid.Bool().Draw(t, "both") {
+			c.Evs = append(c.Evs, small())
+		}
+		c.Evs = append(c.Evs, b2(), Ev{Kind: "updfar", Sess: 0, FAR: 1, Action: DROP}, Ev{Kind: "updfar", Sess: 0, FAR: 1, Action: BUFF}, b2(), forw)
+	case "recreate":
+		// packets buffered for PDR 1, PDR 1 removed and created again, more packets, release: only the new ones may come out
+		c.Evs = append(c.Evs, small(), Ev{Kind: "rmpdr", Sess: 0, PDR: 1}, Ev{Kind: "mkpdr", Sess: 0, PDR: 1, FAR: 1}, small(), forw)
 	case "twoforw":
 		c.Evs = append(c.Evs, small(), forw, Ev{Kind: "updfar", Sess: 0, FAR: 1, Action: BUFF}, small(), forw)
 	case "reuse":
@@ -606,7 +699,7 @@ func gen(t *rapid.T) Case {
 		nsess++
 	}
 	for i := 0; i < n; i++ {
-		k := rapid.SampledFrom([]string{"burst", "burst", "burst", "burst", "updfar", "updfar", "updfar", "updfar", "rmpdr", "del", "est"}).Draw(t, "kind")
+		k := rapid.SampledFrom([]string{"burst", "burst", "burst", "burst", "updfar", "updfar", "updfar", "updfar", "rmpdr", "mkpdr", "del", "est"}).Draw(t, "kind")
 		ev := Ev{Kind: k, Sess: rapid.IntRange(0, nsess-1).Draw(t, "sess")}
 		switch k {
 		case "burst":
@@ -630,12 +723,21 @@ func gen(t *rapid.T) Case {
 			}
 		case "rmpdr":
 			ev.PDR = uint16(rapid.IntRange(1, 3).Draw(t, "pdr"))
+		case "mkpdr":
+			ev.PDR = uint16(rapid.IntRange(1, 3).Draw(t, "pdr"))
+			ev.FAR = uint32(rapid.IntRange(1, 2).Draw(t, "far"))
+			if rapid.Bool().Draw(t, "withqer") {
+				ev.QERs = []uint32{uint32(rapid.IntRange(1, 2).Draw(t, "qer"))}
+			}
 		case "est":
 			sp := genSess(t, uint64(0x70+i))
 			ev.Spec = &sp
 			nsess++
 		}
 		c.Evs = append(c.Evs, ev)
+	}
+	if rapid.IntRange(0, 2).Draw(t, "permute") == 0 {
+		c.Perm = rapid.Uint32Range(1, 1<<30).Draw(t, "perm")
 	}
 	return c
 }
